@@ -34,7 +34,30 @@ fn main() {
                 std::process::exit(2);
             };
             let tier = std::env::var("VERIF_TIER").ok().unwrap_or_else(|| args[3].clone());
-            std::process::exit(kit::driver::check(spec, tier == "thorough"));
+            let mut code = kit::driver::check(spec, tier == "thorough");
+            // a property decided in more than one world: the companions ("<id>+<world>") run after
+            // the primary one and their evidence is folded into the property's evidence file
+            for comp in checks::all().iter().filter(|c| c.property.starts_with(&format!("{}+", spec.property))) {
+                let c2 = kit::driver::check(comp, tier == "thorough");
+                code = code.max(c2);
+                let out_dir = std::env::var("VERIF_OUT").unwrap_or_else(|_| "/verif".to_string());
+                let main_path = format!("{out_dir}/evidence/{}.json", spec.property);
+                let comp_path = format!("{out_dir}/evidence/{}.json", comp.property);
+                if let (Ok(a), Ok(b)) = (std::fs::read(&main_path), std::fs::read(&comp_path)) {
+                    if let (Ok(mut a), Ok(b)) = (serde_json::from_slice::<serde_json::Value>(&a), serde_json::from_slice::<serde_json::Value>(&b)) {
+                        let viol = a["violations"].as_u64().unwrap_or(0) + b["violations"].as_u64().unwrap_or(0);
+                        a["violations"] = serde_json::json!(viol);
+                        let wall = a["wall_s"].as_f64().unwrap_or(0.0) + b["wall_s"].as_f64().unwrap_or(0.0);
+                        a["wall_s"] = serde_json::json!(wall);
+                        let mut extra = a["coverage"]["additional_worlds"].as_array().cloned().unwrap_or_default();
+                        extra.push(serde_json::json!({"check": comp.property, "coverage": b["coverage"].clone(), "real": b["real"].clone(), "stubbed": b["stubbed"].clone()}));
+                        a["coverage"]["additional_worlds"] = serde_json::json!(extra);
+                        let _ = std::fs::write(&main_path, serde_json::to_vec_pretty(&a).unwrap());
+                        let _ = std::fs::remove_file(&comp_path);
+                    }
+                }
+            }
+            std::process::exit(code);
         }
         "worker" => {
             // worker <prop> <base_seed> <from> <to> <stride> <tier> <deadline_s>
